@@ -96,7 +96,9 @@ theorem ffcKey_rt (k : FfcKey) (hk : k.keyLength < 2 ^ 32) (hf : k.fieldOrder < 
   have ld : dhpb.length = 4 := rfl
   have s1 : Py.sliceN (dhpb ++ (B ++ (Py.toBE fo kl ++ (Py.toBE g kl ++ Py.toBE pk kl)))) 0 4 = dhpb := by slices [ld]
   have s2 : Py.sliceN (dhpb ++ (B ++ (Py.toBE fo kl ++ (Py.toBE g kl ++ Py.toBE pk kl)))) 4 8 = B := by slices [ld, lB]
-  simp only [s1, s2, ne_eq, not_true_eq_false, if_false, vB]
+  have hlen : ¬ (dhpb ++ (B ++ (Py.toBE fo kl ++ (Py.toBE g kl ++ Py.toBE pk kl)))).length < 8 + 3 * kl := by
+    simp [ld, lB]; omega
+  simp only [s1, s2, ne_eq, not_true_eq_false, if_false, vB, hlen]
   have e1 : Py.fromBE (Py.sliceN (dhpb ++ (B ++ (Py.toBE fo kl ++ (Py.toBE g kl ++ Py.toBE pk kl)))) 8 (8 + kl)) = fo := by
     have := toBE_slice (dhpb ++ B) (Py.toBE g kl ++ Py.toBE pk kl) fo kl 8 (by simp [ld, lB] <;> omega) hf
     simpa [List.append_assoc] using this
